@@ -412,6 +412,103 @@ def section(ctx):
         assert body == want, body
     flag('s3StreamDigestShape', stream_digest_shape)
 
+    # ---- retried streamed PUT: which failures of an attempt are followed by a rewind of the stream
+    # `_put_object_stream` is retried by backoff on httpx.HTTPError = HTTPStatusError (a response arrived) ∪ the transport
+    # errors (RequestError: connect / read / write / protocol / timeout, no response).  The model needs to know, per class,
+    # whether the stream is back at a fixed position when the next attempt starts.
+    STATUS_ONLY = {'HTTPStatusError'}
+    TRANSPORT_ALL = {'RequestError', 'TransportError'}
+    TRANSPORT_SOME = {'TimeoutException', 'ConnectTimeout', 'ReadTimeout', 'WriteTimeout', 'PoolTimeout', 'NetworkError', 'ConnectError',
+                      'ReadError', 'WriteError', 'CloseError', 'ProtocolError', 'LocalProtocolError', 'RemoteProtocolError', 'ProxyError',
+                      'UnsupportedProtocol', 'DecodingError', 'TooManyRedirects'}
+    EVERYTHING = {'HTTPError', 'Exception', 'BaseException'}
+
+    def _covers(handler_type):
+        """(covers status?, covers transport?) of one `except` clause: True / False / 'some' (a proper subset)"""
+        if handler_type is None:
+            return True, True
+        types = handler_type.elts if isinstance(handler_type, ast.Tuple) else [handler_type]
+        st, tr = False, False
+        for t in types:
+            nm = t.attr if isinstance(t, ast.Attribute) else t.id if isinstance(t, ast.Name) else None
+            if nm in EVERYTHING:
+                st, tr = True, True
+            elif nm in STATUS_ONLY:
+                st = True
+            elif nm in TRANSPORT_ALL:
+                tr = True
+            elif nm in TRANSPORT_SOME:
+                tr = tr or 'some'
+            else:
+                raise ValueError('exception class not recognised: ' + un(t))
+        return st, tr
+
+    def _seek_consts(stmts):
+        """constants of top-level `stream.seek(<int>)` statements"""
+        out = []
+        for st in stmts:
+            if isinstance(st, ast.Expr) and isinstance(st.value, ast.Call) and un(st.value.func) == 'stream.seek':
+                c = st.value
+                assert len(c.args) in (1, 2) and not c.keywords, un(c)
+                if len(c.args) == 2:
+                    assert ast.literal_eval(c.args[1]) == 0, un(c)
+                v = ast.literal_eval(c.args[0])
+                assert isinstance(v, int) and v >= 0, un(c)
+                out.append(v)
+        return out
+
+    def put_rewind():
+        """→ (on status, on transport, position).  Recognised places of the rewind: the start of the retried function (before the
+        request), the `except` clauses around the request, a `finally` clause."""
+        f = func('S3Compatible', '_put_object_stream')
+        deco = [un(d) for d in f.decorator_list]
+        assert deco == ['backoff_on_httperror'], deco
+        consts, st_rew, tr_rew = [], None, None
+        for top in f.body:
+            has_req = any(isinstance(n, ast.Call) and un(n.func) == 'self._make_request' for n in ast.walk(top))
+            if not has_req:
+                c = _seek_consts([top])
+                if c:                                   # rewinds at the start of every attempt
+                    consts += c
+                    st_rew = tr_rew = True
+                continue
+            if isinstance(top, ast.Try):
+                assert not any(isinstance(n, ast.Call) and un(n.func) == 'self._make_request'
+                               for part in (top.handlers, top.orelse, top.finalbody) for x in part for n in ast.walk(x)), 'request outside the try body'
+                fin = _seek_consts(top.finalbody)
+                for h in top.handlers:
+                    cs, ct = _covers(h.type)
+                    hc = _seek_consts(h.body)
+                    reraises = any(isinstance(x, ast.Raise) and x.exc is None for x in h.body)
+                    assert reraises, 'handler does not re-raise: ' + un(h)
+                    if cs and st_rew is None:
+                        st_rew = bool(hc or fin)
+                        consts += hc
+                    if ct and tr_rew is None:
+                        if ct == 'some':
+                            raise ValueError('handler covers only some transport errors: ' + un(h.type))
+                        tr_rew = bool(hc or fin)
+                        consts += hc
+                if fin:
+                    consts += fin
+                    st_rew = tr_rew = True
+            break
+        st_rew, tr_rew = bool(st_rew), bool(tr_rew)
+        assert len(set(consts)) <= 1, consts
+        return st_rew, tr_rew, (consts[0] if consts else 0)
+    item('s3PutRewindOnStatus', 'Bool', lambda: str(put_rewind()[0]).lower())
+    item('s3PutRewindOnTransport', 'Bool', lambda: str(put_rewind()[1]).lower())
+    item('s3PutRewindTo', 'Nat', lambda: str(put_rewind()[2]))
+
+    def digest_outside_retry():
+        """the payload digest is computed once, outside the retried function, and passed unchanged to every attempt"""
+        us = func('S3Compatible', 'upload_stream')
+        assert not us.decorator_list, [un(d) for d in us.decorator_list]
+        ps = func('S3Compatible', '_put_object_stream')
+        assert not [n for n in ast.walk(ps) if isinstance(n, ast.Call) and un(n.func) in ('_get_stream_hexdigest', '_get_data_hexdigest')]
+        assert not assigns(ps, 'payload_digest') and not assigns(ps, 'length')
+    flag('s3StreamDigestOutsideRetry', digest_outside_retry)
+
     def upload_shape():
         u = func('S3Compatible', 'upload')
         assert [un(s) for s in u.body] == ['payload_digest = _get_data_hexdigest(data)', 'await self._put_object(name, data, payload_digest)'], [un(s) for s in u.body]
